@@ -73,6 +73,9 @@ def cases(tier, seed):
     # an undriven screened run (currents identically zero: the sum is zero) after a driven screened run in the same process
     for d in ("G1s", "G5"):
         out.append(dict(fam="run", dev=d, B=0.0, tol=1e-3, ab=0, maxit=1000, prior="driven"))
+    # another film (other london_lambda and thickness) on the same Mesh object was solved with screening first
+    for d, B in itertools.product(("G1s", "G5", "G5nm"), (0.2, 0.6)):
+        out.append(dict(fam="run", dev=d, B=B, tol=1e-3, ab=0, maxit=1000, prior="other_layer_on_shared_mesh"))
     # thermalisation first: iterations of both stages are judged; the recorded stage starts from the thermalised state
     for d, tol in itertools.product(("G1s", "G5"), (1e-2, 1e-3) if quick else tols):
         out.append(dict(fam="run", dev=d, B=0.5, tol=tol, ab=0, maxit=1000, thermal=True))
@@ -218,7 +221,15 @@ def run_run(case):
     if case.get("edit_after_build"):
         # the options object is edited between building the solver and running it: the run uses the settings as they are then
         opts.screening_tolerance, opts.screening_step_size, opts.screening_step_drag = 30 * case["tol"], 0.5 * alpha, min(1.0, 1.5 * beta)
-    if case.get("prior"):
+    if case.get("prior") == "other_layer_on_shared_mesh":
+        # a screened run of another film on the same Mesh object first (Device.copy() shares the mesh; the layer is the copy's own)
+        other = dev.copy()
+        other.layer.london_lambda = 2.5 * dev.layer.london_lambda
+        other.layer.thickness = 0.5 * dev.layer.thickness
+        po = tdgl.SolverOptions(solve_time=3 * dt, dt_init=dt, dt_max=dt, adaptive=False, save_every=3, output_file="prior.h5", include_screening=True,
+                                screening_tolerance=1e-2, progress_interval=10**9, field_units=fu)
+        tdgl.solve(other, po, applied_vector_potential=0.6 * {"uT": 1e3, "T": 1e-3, "mT": 1.0}[fu])
+    elif case.get("prior"):
         po = tdgl.SolverOptions(solve_time=3 * dt, dt_init=dt, dt_max=dt, adaptive=False, save_every=3, output_file="prior.h5", include_screening=True,
                                 screening_tolerance=1e-2, progress_interval=10**9, field_units=fu)
         tdgl.solve(dev, po, applied_vector_potential=0.6 * {"uT": 1e3, "T": 1e-3, "mT": 1.0}[fu])
